@@ -273,6 +273,94 @@ def colliding_name_models() -> Iterator[Tuple[str, str]]:
         yield f"collide-support-prop-{p}", HEADER_MM + _cls("Thing", [(p, "str")])
 
 
+# --------------------------------------------------------------------------- edge shapes (seed independent)
+
+#: expressions (over ``self.flag: bool`` and ``self.val: str``) that the front end accepts although they are unusual at their
+#: position: a callee which is not a function, a formatted value whose transpiled code spans several lines
+EDGE_INVARIANT_EXPRS = [
+    # -- the callee is a name which is not a function: the instance, a loop variable
+    ("call-of-instance", "self(1) > 0"),
+    ("call-of-loop-variable", "all(i(1) > 0 for i in range(0, len(self.val)))"),
+    # -- formatted values of an f-string: boolean connectives (their transpiled code is broken into lines), a quantifier
+    ("fstring-implication", 'len(f"{not self.flag or self.flag}") > 0'),
+    ("fstring-and", 'len(f"{self.flag and self.flag}") > 0'),
+    ("fstring-all", 'len(f"{all(i >= 0 for i in range(0, len(self.val)))}") > 0'),
+    ("fstring-plain", 'len(f"{self.val}-{len(self.val)}") > 0'),
+]
+
+#: description texts for the class / property / enumeration / literal / constant docstrings (the C20 check feeds hundreds of
+#: nasty texts through one fixed model; here only the shapes that reach distinct *renderer* branches of the description modules)
+EDGE_DESCRIPTIONS = [
+    ("backtick-in-literal", "Represent ``a`b`` something."),
+    ("ends-in-vertical-tab", "Represent something. \x0b"),
+    ("ends-in-form-feed", "Represent something.\n\nSome remark \x0c"),
+    ("literal-with-at-and-braces", "Represent ``@x {y} */ \\`` something."),
+]
+
+
+def _edge_invariant_model(expr: str, on_primitive: bool) -> str:
+    if on_primitive:
+        # the invariant of a constrained primitive: ``self`` is the value itself
+        e = expr.replace("self.val", "self").replace("self.flag", "(len(self) > 0)")
+        return (
+            HEADER_MM
+            + f'@invariant(\n    lambda self: {e},\n    "Some constraint.",\n)\nclass Limit(str, DBC):\n    """Represent a limit."""\n\n\n'
+            + _cls("Thing", [("limit", "Limit")])
+        )
+    return (
+        HEADER_MM
+        + f'@invariant(\n    lambda self: {expr},\n    "Some constraint.",\n)\n'
+        + _cls("Thing", [("flag", "bool"), ("val", "str")])
+    )
+
+
+def _edge_function_model(expr: str) -> str:
+    e = expr.replace("self.val", "val").replace("self.flag", "flag").replace("self(", "val(")
+    return (
+        HEADER_MM
+        + f'@verification\ndef is_fine(flag: bool, val: str) -> bool:\n    """Check it."""\n    return {e}\n\n\n'
+        + '@invariant(\n    lambda self: is_fine(self.flag, self.val),\n    "Some constraint.",\n)\n'
+        + _cls("Thing", [("flag", "bool"), ("val", "str")])
+    )
+
+
+def _edge_description_model(desc: str) -> str:
+    from harness.props.c20_files import lit
+
+    d = lit(desc)
+    return (
+        HEADER_MM
+        + f"class Kind(Enum):\n    {d}\n\n    First = \"first\"\n    {d}\n\n\n"
+        + f"class Thing(DBC):\n    {d}\n\n    kind: Kind\n    {d}\n\n    def __init__(self, kind: Kind) -> None:\n        self.kind = kind\n\n\n"
+        + f"Some_text: str = constant_str(\n    value=\"x\",\n    description={d},\n)\n"
+    )
+
+
+def edge_models() -> Iterator[Tuple[str, str]]:
+    """Seed-independent: small accepted models, each with one construct at the edge of what the front end accepts."""
+    # -- enumerations and classes at their smallest
+    empty_enum = 'class Kind(Enum):\n    """Represent a kind."""\n\n\n'
+    yield "edge-enum-without-literals-used", HEADER_MM + empty_enum + _cls("Thing", [("kind", "Optional[Kind]")])
+    yield "edge-enum-without-literals-unused", HEADER_MM + empty_enum + _cls("Thing", [("val", "str")])
+    # -- constructors: no argument but a call to the constructor of the parent; one argument passed on; two arguments
+    yield (
+        "edge-constructor-shapes",
+        HEADER_MM
+        + '@abstract\nclass Parent(DBC):\n    """Represent a parent."""\n\n    def __init__(self) -> None:\n        pass\n\n\n'
+        + 'class Child(Parent):\n    """Represent a child."""\n\n    def __init__(self) -> None:\n        Parent.__init__(self)\n\n\n'
+        + _cls("Holder", [("child", "Child"), ("other", "Optional[Child]")]),
+    )
+    for name, expr in EDGE_INVARIANT_EXPRS:
+        yield f"edge-invariant-{name}", _edge_invariant_model(expr, on_primitive=False)
+    # the same construct classes in the two other positions where an expression is transpiled (one representative each)
+    yield "edge-primitive-invariant-call-of-instance", _edge_invariant_model("self(1) > 0", on_primitive=True)
+    yield "edge-primitive-invariant-fstring-implication", _edge_invariant_model(EDGE_INVARIANT_EXPRS[2][1], on_primitive=True)
+    yield "edge-function-call-of-argument", _edge_function_model("self(1) > 0")
+    yield "edge-function-fstring-implication", _edge_function_model(EDGE_INVARIANT_EXPRS[2][1])
+    for name, desc in EDGE_DESCRIPTIONS:
+        yield f"edge-description-{name}", _edge_description_model(desc)
+
+
 def fixture_models() -> List[pathlib.Path]:
     seen = set()
     out = []
@@ -319,7 +407,7 @@ def random_models(rng: Any, n_default: int, seeds_per_hazard: int, n_everything:
 
 
 def all_models(ctx: Ctx) -> Iterator[Tuple[str, str, str]]:
-    """(name, stream, text) in a deterministic order: corpus, fixtures, enumerated hierarchies, collisions, random."""
+    """(name, stream, text) in a deterministic order: corpus, fixtures, enumerated hierarchies, collisions, edge shapes, random."""
     for c in corpus(ID):
         yield c["name"], "corpus", c["text"]
     fixtures = fixture_models()
@@ -345,6 +433,8 @@ def all_models(ctx: Ctx) -> Iterator[Tuple[str, str, str]]:
         yield name, "hierarchy", text
     for name, text in colliding_name_models():
         yield name, "collision", text
+    for name, text in edge_models():
+        yield name, "edge", text
     yield from random_models(ctx.rng, ctx.n(12, 500), 1 if ctx.tier == "quick" else 8, ctx.n(3, 100))
 
 
